@@ -193,8 +193,8 @@ StopBound ==
   /\ stop' = "bound" /\ pc' = "exit"
   /\ UNCHANGED <<sid, init, blocked, frames, model, call, inc, incs, iter, ret, seen, pseen, ncalls, definite, nsolve, reinit>>
 
-StopTime ==  \* max_time exceeded / expected next time too long
-  /\ pc = "found"
+StopTime ==  \* max_time exceeded / expected next time too long (only when the clock allows it)
+  /\ pc = "found" /\ Sc.time_stops
   /\ stop' = "time" /\ pc' = "exit" /\ definite' = FALSE
   /\ UNCHANGED <<sid, init, blocked, frames, model, call, inc, incs, iter, ret, seen, pseen, ncalls, nsolve, reinit>>
 
